@@ -191,6 +191,8 @@ pub struct Node {
     pub snap_handed: BTreeMap<NodeId, u64>,
     /// ghost: (index -> term) of entries handed out for persistence by earlier Readies of this incarnation
     pub persist_handed: BTreeMap<u64, u64>,
+    /// ghost: the group-commit switch as the application last set it in this incarnation
+    pub want_group_commit: bool,
     pub ticks_as_leader_with_transferee: usize,
     pub transferee_seen: Option<u64>,
     /// ghost: in-flight window capacity last requested per peer (C18: a resize must not get lost)
@@ -424,6 +426,7 @@ impl World {
                     probe_outstanding: Default::default(),
                     snap_handed: Default::default(),
                     persist_handed: Default::default(),
+                    want_group_commit: false,
                     ticks_as_leader_with_transferee: 0,
                     transferee_seen: None,
                     want_cap: BTreeMap::new(),
@@ -794,6 +797,7 @@ impl World {
         node.probe_outstanding.clear();
         node.snap_handed.clear();
         node.persist_handed.clear();
+        node.want_group_commit = false;
         if node.obs.commit < node.max_commit_ever {
             node.reloaded_lower_commit = true;
         }
@@ -1475,6 +1479,13 @@ impl World {
             Action::SetKnob { n, knob } => {
                 let k = *knob;
                 let universe: Vec<NodeId> = self.cfg.nodes.keys().cloned().collect();
+                if let Knob::GroupCommit(b) = k {
+                    if let Some(x) = self.nodes.get_mut(n) {
+                        if x.running() {
+                            x.want_group_commit = b;
+                        }
+                    }
+                }
                 self.call(*n, CallKind::Knob(k), move |raw| {
                     match k {
                         Knob::MaxInflight { peer, cap } => raw.raft.adjust_max_inflight_msgs(peer, cap),
